@@ -87,7 +87,7 @@ PatchRec(t, fv) == LET e1 == BytesAfterUnpatch(t) IN
                     patches |-> [patches EXCEPT ![t] = [fv |-> fv, ob |-> e1]],
                     guard |-> [ob |-> e1]]
 
-NewMatcher(a, rs) == [a |-> a, rs |-> rs, n |-> 0]
+NewMatcher(a, rs) == [a |-> a, rs |-> rs, n |-> 0, c |-> 0]   \* n: calls served (mechanism: its cursor); c: see ReqSeq
 
 \* chained API: add result sequence rs to whatever the When object currently points at
 RECURSIVE AddResults(_, _, _)
@@ -102,8 +102,7 @@ AddResults(w, rs, first) ==
 
 \* baseMocker.callback / When.invoke / BaseMatcher.Result for a call with argument a;
 \* returns [res, when']
-MatcherResult(m) == IF Len(m.rs) <= 1 THEN [v |-> m.rs[1], m |-> m]
-                    ELSE IF m.n >= Len(m.rs) THEN [v |-> m.rs[Len(m.rs)], m |-> m]
+MatcherResult(m) == IF m.n >= Len(m.rs) THEN [v |-> m.rs[Len(m.rs)], m |-> m]
                     ELSE [v |-> m.rs[m.n + 1], m |-> [m EXCEPT !.n = @ + 1]]
 FirstIdx(conds, a) == LET I == {i \in 1..Len(conds) : conds[i].a = a \/ conds[i].a = AnyA} IN
                       IF I = {} THEN 0 ELSE CHOOSE i \in I : \A j \in I : i <= j
@@ -116,12 +115,19 @@ Invoke(w, a) ==
     ELSE [res |-> "panic:nocond", w |-> w]
 
 (* ---------------- requirement ---------------- *)
-ReqSeq(m) == [v |-> m.rs[Min(m.n + 1, Len(m.rs))], m |-> [m EXCEPT !.n = @ + 1]]
+\* "the k-th call receives the k-th configured result, every call after the n-th the last one".  A sequence may be
+\* EXTENDED later (a further Returns / Return on the same configuration, cf. the repository's TestMultiReturns).  If
+\* calls beyond the old end came before the extension, the statement can be read in two ways: k counts every call that
+\* selected the stub (n), or only those that consumed a fresh element (c).  Both readings are accepted (v, v2); they
+\* coincide unless an extension follows calls beyond the end, and they converge on the new last element.
+ReqSeq(m) == [v |-> m.rs[Min(m.n + 1, Len(m.rs))], v2 |-> m.rs[Min(m.c + 1, Len(m.rs))],
+              m |-> [m EXCEPT !.n = @ + 1, !.c = Min(@ + 1, Len(m.rs))]]
+Alt(r) == IF r.v2 = r.v THEN "" ELSE "r:" \o ToString(r.v2)
 ReqInvoke(e, a) ==
     LET i == FirstIdx(e.conds, a) IN
-    IF i # 0 THEN LET r == ReqSeq(e.conds[i]) IN [res |-> "r:" \o ToString(r.v), e |-> [e EXCEPT !.conds[i] = r.m]]
-    ELSE IF e.def # None THEN LET r == ReqSeq(e.def) IN [res |-> "r:" \o ToString(r.v), e |-> [e EXCEPT !.def = r.m]]
-    ELSE [res |-> "panic:nocond", e |-> e]
+    IF i # 0 THEN LET r == ReqSeq(e.conds[i]) IN [res |-> "r:" \o ToString(r.v), alt |-> Alt(r), e |-> [e EXCEPT !.conds[i] = r.m]]
+    ELSE IF e.def # None THEN LET r == ReqSeq(e.def) IN [res |-> "r:" \o ToString(r.v), alt |-> Alt(r), e |-> [e EXCEPT !.def = r.m]]
+    ELSE [res |-> "panic:nocond", alt |-> "", e |-> e]
 
 Tainted(tc, t) == Cardinality({b \in B : tc[b][t]}) > 1
 \* requirement-level effect of an instruction by b on t that would make t behave as e
@@ -188,7 +194,9 @@ Stub(kind, b, t, a, rs, via) ==
                  THEN (IF e.k = "stub" THEN [e EXCEPT !.conds = Append(@, NewMatcher(a, rs))]
                        ELSE IF e.k = "free" THEN Free
                        ELSE [k |-> "stub", def |-> None, conds |-> <<NewMatcher(a, rs)>>])
-                 ELSE (IF e.k \in {"stub", "free"} THEN Free     \* bare Return on an existing configuration
+                 ELSE (IF e.k = "stub" /\ e.conds = <<>> /\ e.def # None
+                       THEN [e EXCEPT !.def.rs = @ \o rs]        \* a default-only stub is extended (TestMultiReturns)
+                       ELSE IF e.k \in {"stub", "free"} THEN Free \* bare Return on a configuration with conditions: unspecified
                        ELSE [k |-> "stub", def |-> NewMatcher(AnyA, rs), conds |-> <<>>]) IN
        Instruct(b, t, e2)
     /\ UNCHANGED <<phr, lg>>
@@ -227,25 +235,25 @@ ImplCall(t, a) ==
               [res |-> r.res, mk |-> [mk EXCEPT ![entry[t].b][entry[t].t].when = r.w]]
 ReqCall(t, a) ==
     LET e == exp[t] IN
-    IF e.k = "orig" THEN [res |-> "orig", exp |-> exp]
-    ELSE IF e.k = "cb" THEN [res |-> "cb:" \o e.c, exp |-> exp]
-    ELSE IF e.k = "cbo" THEN [res |-> "cbo", exp |-> exp]
-    ELSE IF e.k = "free" THEN [res |-> "free", exp |-> exp]
-    ELSE LET r == ReqInvoke(e, a) IN [res |-> r.res, exp |-> [exp EXCEPT ![t] = r.e]]
+    IF e.k = "orig" THEN [res |-> "orig", alt |-> "", exp |-> exp]
+    ELSE IF e.k = "cb" THEN [res |-> "cb:" \o e.c, alt |-> "", exp |-> exp]
+    ELSE IF e.k = "cbo" THEN [res |-> "cbo", alt |-> "", exp |-> exp]
+    ELSE IF e.k = "free" THEN [res |-> "free", alt |-> "", exp |-> exp]
+    ELSE LET r == ReqInvoke(e, a) IN [res |-> r.res, alt |-> r.alt, exp |-> [exp EXCEPT ![t] = r.e]]
 
 Call(t, a) ==
     /\ "Call" \in Ops
     /\ LET i == ImplCall(t, a) IN LET r == ReqCall(t, a) IN
        /\ mk' = i.mk
        /\ exp' = r.exp
-       /\ Log([op |-> "Call", t |-> t, a |-> a, res |-> r.res, ires |-> i.res, obs |-> Obs(exp', phr), panic |-> ""])
+       /\ Log([op |-> "Call", t |-> t, a |-> a, res |-> r.res, alt |-> r.alt, ires |-> i.res, obs |-> Obs(exp', phr), panic |-> ""])
     /\ UNCHANGED <<entry, ph, patches, cfg, touched, phr, lg>>
 
 \* calling t's origin placeholder directly: the original, once goom has rewritten it
 CallPh(t, a) ==
     /\ "CallPh" \in Ops
     /\ phr[t] = "T"
-    /\ Log([op |-> "CallPh", t |-> t, a |-> a, res |-> "orig",
+    /\ Log([op |-> "CallPh", t |-> t, a |-> a, res |-> "orig", alt |-> "",
             ires |-> IF ph[t] = "T" THEN "orig" ELSE "ph", obs |-> Obs(exp, phr), panic |-> ""])
     /\ UNCHANGED <<entry, ph, patches, mk, exp, cfg, touched, phr, lg>>
 
@@ -293,7 +301,7 @@ Spec == Init /\ [][Next]_vars
 Last == hist[Len(hist)]
 
 \* C01/C04/C05/C12: every call's mechanism result is the required one
-CallsConform == (Len(hist) > 0 /\ Last.op \in {"Call", "CallPh"} /\ Last.res # "free") => Last.ires = Last.res
+CallsConform == (Len(hist) > 0 /\ Last.op \in {"Call", "CallPh"} /\ Last.res # "free") => (Last.ires = Last.res \/ (Last.alt # "" /\ Last.ires = Last.alt))
 
 \* C02: the entry of t is diverted only while the requirement says t is mocked (or free), the
 \* placeholder body only once handed over; captured origin bytes are always the pristine ones
